@@ -74,6 +74,56 @@ CHECKS = {
              'library result, independence of --no_cpp) is explored by running the real CLI in subprocesses.',
         design_ref='DESIGN.md §5 C17',
         note='Process, filesystem, logging and the C pre-processor are observed, not modelled; gcc -E assumed identity on directive-free text.'),
+    'C01': dict(
+        technique='Lean 4 proof (refinement of the analysis model to a pointwise reference calculus, structural induction; table tie by regenerated create_vector table) + Lean spec oracle on the implementation reports + differential correspondence',
+        text='Proved: the regenerated create_vector table is the documented rule table; for every loop-free statement of '
+             'the supported fragment the relation of the analysis model MEANS exactly the matrix the pointwise calculus '
+             'Spec.sem derives at every choice vector (structural induction, all aliasing patterns, sugar, if/else, '
+             'blocks). Loops: fixpoint = closure and the W/L corrections are proved pointwise (C10 / RelFix); their '
+             'assembly into the full refinement theorem is in progress (see DESIGN.md). Every run evaluates the FULL '
+             'property on the real code with the Lean calculus as oracle (valid set = derivable set over all 3^k choices, '
+             'matrices at valid choices, bound at the first choice, fin and strict on/off) and diffs the Lean model of the '
+             'whole analysis against the implementation (relation polynomials included).',
+        design_ref='DESIGN.md §5 C01',
+        note='Partial proof: loop cases of the refinement not yet assembled; supported fragment as delimited by Spec.desugar; castOk (no double cast on a right-hand side).'),
+    'C05': dict(
+        technique='Lean 4 proof (mutual structural induction over the syntax tree: Coverage model vs calculus reading) + bounded-exhaustive template correspondence',
+        text='Proved: if the model of the syntax check reports full support then every statement is readable by the '
+             'calculus reading Spec.desugar, under three explicit exclusions each with a kernel-checked witness (nested '
+             'unary on a right-hand side = known finding; ++ on a constant; trees the C parser cannot produce). Controlling '
+             'expressions are not inspected by the syntax check at all (negative witness proved; known findings). Every '
+             'run feeds the real Coverage verdict and the real analysis warnings for every statement form x position '
+             'template to the Lean predicate and diffs the Coverage model (omit count, tree after ast_mod).',
+        design_ref='DESIGN.md §5 C05',
+        note='Known findings listed in known_findings.json (side effects in conditions, nested unary).'),
+    'C07': dict(
+        technique='Lean 4 proof (mutual structural induction over the syntax tree on the Coverage/ast_mod model) + differential correspondence and metamorphic runs',
+        text='Proved: a fully supported tree is untouched by the removal pass; after the removal pass the syntax check '
+             'reports full support and a second pass changes nothing (for-loop compatibility is preserved when the body '
+             'shrinks). Every run inserts multisets of unsupported statements over fresh identifiers at random positions '
+             '(incl. loop/branch bodies) and compares the real function-mode and loop-mode results with the originals, '
+             'checks strict mode refuses them, and diffs the model (omit count, tree after removal).',
+        design_ref='DESIGN.md §5 C07',
+        note='Result equality under insertion is explored on the implementation, the tree-level statements are proved on the model.'),
+    'C14': dict(
+        technique='Lean 4 proof (table-driven model of Serializable.to_dict / from_dict over JSON values; round-trip theorem for every result class) + differential correspondence on saved files',
+        text='Proved for every result class (attribute lists regenerated from the live classes): fromDict (toDict o) = o '
+             'for every well-formed object, hence load-then-save is the identity on saved documents and simple attributes '
+             'come back exactly, also 0 / False / "" / []; negative witness for the repaired defect. Every run saves, '
+             'loads and re-saves real results (function mode finite/infinite, fin, loop mode, functions without variables), '
+             'compares JSON, re-uses the restored relation (apply_choice at all choices, eval, composition), choices and '
+             'bounds, and diffs the model round trip on the same documents.',
+        design_ref='DESIGN.md §5 C14',
+        note='WFObj lists what real result objects satisfy (see Lemmas/ResultThmsDefs.lean); file system is observed, not modelled.'),
+    'C19': dict(
+        technique='Lean 4 proof (mutual structural induction: FindLoops model = generic pre-order traversal) + correspondence incl. a line-lexer specification',
+        text='Proved: the model of FindLoops returns exactly the loop statements of the source in pre-order through every '
+             'statement container (blocks, branches, loop bodies, switch bodies, labels), counted for-loops only. Every '
+             'run compares the real FindLoops with the independent traversal in Lean, loop-mode results (one per non-empty '
+             'loop, order, each equal to the loop analysed alone), the program statistics, and loc with a Lean line lexer '
+             'on texts with comments / strings / character literals.',
+        design_ref='DESIGN.md §5 C19',
+        note='loc regex vs lexer equivalence is explored (character-level fuzz), not proved; variable counts are compared with the model only.'),
 }
 
 NOT_YET = {}
